@@ -1,5 +1,388 @@
-/- Driver for C03 (stub until the property's model is written). -/
+/- Driver for C03/C04 (and the daemon legs of C02/C14): abstracts the qsim traces of the real
+   qmail-send + qmail-clean (harness/qsend.c) into `Nq.Daemon.Ev` events, replays them through the
+   monitor `Daemon.accept`, and evaluates the property oracles on the concrete observations. -/
 import Drv.Util
-open Drv
-def handle (st : Stats) (_line : String) : IO Stats := return { st with cases := st.cases + 1 }
-def main : IO Unit := runDriver handle
+import Nq.Daemon
+
+open Nq Nq.Daemon Drv
+
+def kvOf (toks : List String) (k : String) : String :=
+  match toks.find? (fun t => t.startsWith (k ++ "=")) with
+  | some t => (t.drop (k.length + 1)).toString
+  | none => ""
+
+def kvAll (toks : List String) (k : String) : List String :=
+  (toks.filter (fun t => t.startsWith (k ++ "="))).map (fun t => (t.drop (k.length + 1)).toString)
+
+inductive FdKind
+  | info (m : Nat) | chanNew (m : Nat) (c : Ch) | chanMark (m : Nat) (c : Ch) | bounce (m : Nat) | other
+  deriving Repr
+
+/-- "local/6/213" → (loc, 213) etc. -/
+def pathMsg (p : String) : Option (String × Nat) :=
+  match p.splitOn "/" with
+  | [d, _, n] => n.toNat?.map (fun k => (d, k))
+  | [d, n] => n.toNat?.map (fun k => (d, k))
+  | _ => none
+
+def fdKind (c : List (String × FdKind)) (fd : String) : Option FdKind := (c.find? (·.1 == fd)).map (·.2)
+
+def chOf (d : String) : Option Ch := if d == "local" then some .loc else if d == "remote" then some .rem else none
+
+structure Obs where   -- what the oracle needs, gathered independently of the monitor
+  msgs : List (Nat × Bytes × List Bytes) := []          -- accepted messages (id, sender, rcpts), newest first
+  cmds : List (Nat × Nat × Nat × Nat × Bytes × Nat) := []   -- attempt, chan, m, mpos, recip, generation
+  kAttempts : List Nat := []                             -- attempts answered K by the spawner
+  dAttempts : List Nat := []                             -- attempts answered D/B
+  zAttempts : List Nat := []
+  bouncesOk : List Bytes := []                           -- bodies of successfully queued bounces
+  marks : List (Nat × Nat × Nat × Nat) := []             -- (m, chan, mpos, generation) D bytes written
+  machineCrash : Bool := false
+  active : List (Nat × Nat × Nat) := []                  -- (chan, delnum, attempt) in flight
+  dl0 : Bytes × Nat := ([], 0)                           -- report line buffers of the observer (reversed, length)
+  dl1 : Bytes × Nat := ([], 0)
+  gen : List (Nat × Nat) := []                           -- message id → generation counter
+
+structure Case where
+  hdr : String := ""
+  cfg : Cfg := { conc := fun _ => 0, lifetime := 0, route := fun a => (.rem, a), doublebounceto := [] }
+  st : Option St := some {}
+  nev : Nat := 0
+  fds0 : List (String × FdKind) := []
+  bounceAcc : List (String × Bytes) := []       -- bytes written to a bounce fd, until close
+  chanAcc : List (String × Bytes) := []         -- bytes of an incomplete record written to a new channel file (short write)
+  reqAcc : Bytes := []
+  lastBounceStat : Nat := 0
+  firstRead : List String := []                 -- report fds whose concurrency byte was read
+  obs : Obs := {}
+  finalDump : List (String × Bytes) := []
+  dumpTag : String := ""
+  pendingCrashMode : Option Nat := none
+  bad : Bool := false
+  concLoc : Nat := 0
+  concRem : Nat := 0
+
+def routeSimple (a : Bytes) : Ch × Bytes :=
+  -- harness configuration: me = locals = h.example, no virtualdomains, no percenthack
+  let dom := "@h.example".toUTF8.toList
+  if a.length ≥ dom.length ∧ (lower (a.drop (a.length - dom.length))) == dom then (.loc, a) else (.rem, a)
+
+def genOf (o : Obs) (m : Nat) : Nat := ((o.gen.find? (fun g => g.1 == m)).map (·.2)).getD 0
+
+/-- the observer's own reading of the report stream: which in-flight attempt got which letter
+(line buffers kept reversed with their length) -/
+def observeReports (o : Obs) (cn : Nat) : Bytes → Obs
+  | [] => o
+  | b :: bs =>
+    let (rev, len) := if cn == 0 then o.dl0 else o.dl1
+    let full := len ≥ Gen.REPORTMAX
+    let rev := if full then rev else b :: rev
+    let len := if full then len else len + 1
+    if b = 0 ∧ len > 1 then
+      let line := rev.reverse
+      let delnum := (line.headD 0).toNat
+      let letter := line.getD 1 0
+      let o := if cn == 0 then { o with dl0 := ([], 0) } else { o with dl1 := ([], 0) }
+      match o.active.find? (fun (c2, dn2, _) => c2 == cn && dn2 == delnum) with
+      | some (_, _, att) =>
+        let o := { o with active := o.active.filter (fun (c2, dn2, _) => !(c2 == cn && dn2 == delnum)) }
+        let o := if letter = 75 then { o with kAttempts := att :: o.kAttempts }
+                 else if letter = 68 then { o with dAttempts := att :: o.dAttempts }
+                 else { o with zAttempts := att :: o.zAttempts }
+        observeReports o cn bs
+      | none => observeReports o cn bs
+    else
+      observeReports (if cn == 0 then { o with dl0 := (rev, len) } else { o with dl1 := (rev, len) }) cn bs
+
+structure D where
+  st : Stats := {}
+  c : Case := {}
+
+def reject (d : D) (why : String) : IO D := do
+  if d.c.bad then return d
+  IO.println s!"DISAGREE {d.c.hdr} {why}"
+  return { d with st := { d.st with disagree := d.st.disagree + 1 }, c := { d.c with st := none, bad := true } }
+
+def feed (d : D) (ev : Ev) (what : String) : IO D := do
+  match d.c.st with
+  | none => return d
+  | some s =>
+    match accept d.c.cfg s ev with
+    | some s' => return { d with c := { d.c with st := some s', nev := d.c.nev + 1 }, st := d.st.bump ("ev_" ++ (what.takeWhile (· != ' ')).toString) }
+    | none => reject d s!"event#{d.c.nev + 1} rejected: {what}"
+
+def oracleFail (d : D) (prop why : String) : IO D := do
+  IO.println s!"ORACLE prop={prop} {d.c.hdr} why={why.replace " " "_"}"
+  return { d with st := { d.st with oracle := d.st.oracle + 1 } }
+
+/-- recipient records `T addr NUL` / `D addr NUL` in a channel-file dump -/
+def dumpRecs (b : Bytes) : List (Bool × Bytes) :=
+  let rec go (cur : Bytes) : Bytes → List (Bool × Bytes)
+    | [] => []
+    | x :: rest => if x = 0 then
+        (match cur.reverse with | m :: a => [(m == 68, a)] | [] => []) ++ go [] rest
+      else go (x :: cur) rest
+  go [] b
+
+def envRcpts (b : Bytes) : List Bytes :=
+  -- todo/<m>: u..\0 p..\0 F sender \0 (T rcpt \0)*
+  let rec go (cur : Bytes) : Bytes → List Bytes
+    | [] => []
+    | x :: rest => if x = 0 then (match cur.reverse with | 84 :: a => [a] | _ => []) ++ go [] rest else go (x :: cur) rest
+  go [] b
+
+/-- end of a case: recipient accounting on the concrete run (C03) -/
+def finishCase (d0 : D) : IO D := do
+  let mut d := d0
+  let o := d.c.obs
+  let dump := d.c.finalDump
+  for (m, sender, rcpts) in o.msgs do
+    -- only the newest generation of a reused number is still in the dump; older ones were removed after completion
+    let g := genOf o m
+    for r in rcpts do
+      let addr := (routeSimple r).2
+      let ch := if (routeSimple r).1 == .loc then 0 else 1
+      let myCmds := o.cmds.filter (fun (_, c, mm, _, rc, gg) => mm == m && c == ch && rc == addr && gg == g)
+      let delivered := myCmds.any (fun (a, _) => o.kAttempts.contains a)
+      let failedD := myCmds.any (fun (a, _) => o.dAttempts.contains a || o.zAttempts.contains a)
+      let para := [60] ++ sanitizeLF addr ++ [62, 58, 10]
+      let bounced := o.bouncesOk.any (fun body => isInfix para body)
+      let fileOf (dir : String) : Option Bytes := (dump.find? (fun (p, _) => p == s!"{dir}/{m % Gen.auto_split}/{m}")).map (·.2)
+      let stillT := ((fileOf "local").map (fun b => (dumpRecs b).any (fun (dn, a) => !dn && a == addr))).getD false ||
+                    ((fileOf "remote").map (fun b => (dumpRecs b).any (fun (dn, a) => !dn && a == addr))).getD false
+      let inTodo := ((dump.find? (fun (p, _) => p == s!"todo/{m}")).map (fun (_, b) => (envRcpts b).contains r)).getD false
+      let inBounceFile := ((dump.find? (fun (p, _) => p == s!"bounce/{m}")).map (fun (_, b) => isInfix para b)).getD false
+      let infoThere := (fileOf "info").isSome
+      let exemptDouble := sender == "#@[]".toUTF8.toList && failedD
+      let exemptCrash := o.machineCrash && failedD
+      let ok := delivered || bounced || stillT || inTodo || (inBounceFile && infoThere) || exemptDouble || exemptCrash
+      if !ok then
+        d ← oracleFail d "C03" s!"recipient {hex r} of message {m} is neither delivered, bounced nor still queued"
+  return d
+
+def handle (d : D) (line : String) : IO D := do
+  let toks := fields line
+  match toks with
+  | "CASE" :: rest =>
+    let num := fun (k : String) (dflt : Nat) => ((kvOf rest k).toNat?).getD dflt
+    let cl := num "cl" 2; let cr := num "cr" 2; let sl := num "sl" 5; let sr := num "sr" 5
+    let life := num "life" 604800
+    let concL := min cl sl; let concR := min cr sr
+    let cfg : Cfg := { conc := fun c => match c with | .loc => concL | .rem => concR, lifetime := life, route := routeSimple,
+                       doublebounceto := "postmaster@h.example".toUTF8.toList }
+    let hl := " ".intercalate rest
+    let h := hashBytes hl.toUTF8.toList
+    let fresh := !d.st.seen.contains h
+    let mut st : Stats := { d.st with cases := d.st.cases + 1, seen := d.st.seen.insert h, nontrivial := d.st.nontrivial + (if fresh then 1 else 0) }
+    if st.samples < 3 then
+      IO.println s!"SAMPLE {hl}"
+      st := { st with samples := st.samples + 1 }
+    return { st := st, c := { hdr := hl, cfg := cfg, concLoc := concL, concRem := concR } }
+  | "X" :: "newmsg" :: rest =>
+    let m := (kvOf rest "id").toNat!
+    let sender := (unhex (kvOf rest "sender")).getD []
+    let rcpts := (kvAll rest "rcpt").map (fun h => (unhex h).getD [])
+    let o := d.c.obs
+    let g := genOf o m + 1
+    let o := { o with msgs := (m, sender, rcpts) :: o.msgs.filter (fun x => x.1 != m), gen := (m, g) :: o.gen.filter (fun x => x.1 != m) }
+    feed { d with c := { d.c with obs := o } } (.newmsg m sender rcpts) s!"newmsg {m}"
+  | "X" :: "cmd" :: rest =>
+    let c := if kvOf rest "chan" == "0" then Ch.loc else Ch.rem
+    let cn := (kvOf rest "chan").toNat!
+    let delnum := (kvOf rest "delnum").toNat!
+    let att := (kvOf rest "attempt").toNat!
+    let mpos := (kvOf rest "mpos").toNat!
+    let m := (((kvOf rest "messid").splitOn "/").getLast?.getD "0").toNat!
+    let recip := (unhex (kvOf rest "recip")).getD []
+    let o := d.c.obs
+    let g := genOf o m
+    let mut dd := d
+    -- C04 oracle: never start a record whose D byte was written (and not lost in a machine crash); bounded concurrency
+    if o.marks.contains (m, cn, mpos, g) && !o.machineCrash then
+      dd ← oracleFail dd "C04" s!"delivery started for message {m} chan {cn} mpos {mpos} after its completion mark was written"
+    if o.active.any (fun (c2, dn2, _) => c2 == cn && dn2 == delnum) then
+      dd ← oracleFail dd "C04" s!"delivery slot {delnum} of chan {cn} reused while in flight"
+    let lim := if cn == 0 then d.c.concLoc else d.c.concRem
+    if (o.active.filter (fun (c2, _, _) => c2 == cn)).length ≥ lim then
+      dd ← oracleFail dd "C04" s!"more than {lim} deliveries in flight on chan {cn}"
+    let o := { o with cmds := (att, cn, m, mpos, recip, g) :: o.cmds, active := (cn, delnum, att) :: o.active }
+    feed { dd with c := { dd.c with obs := o } } (.cmd c delnum m mpos recip) s!"cmd chan={cn} delnum={delnum} m={m} mpos={mpos}"
+  | "X" :: "bounce" :: rest =>
+    let ok := kvOf rest "result" == "ok"
+    let env := (unhex (kvOf rest "env")).getD []
+    let body := (unhex (kvOf rest "body")).getD []
+    let o := d.c.obs
+    let o := if ok then { o with bouncesOk := body :: o.bouncesOk } else o
+    feed { d with c := { d.c with obs := o } } (.bounceInject d.c.lastBounceStat ok env body) s!"bounceInject m={d.c.lastBounceStat} ok={ok}"
+  | "X" :: "start" :: rest =>
+    let inc := (kvOf rest "incarnation").toNat!
+    let c := { d.c with fds0 := [], bounceAcc := [], chanAcc := [], reqAcc := [], firstRead := [] }
+    let c := { c with obs := { c.obs with active := [], dl0 := ([], 0), dl1 := ([], 0) } }
+    return { d with c := c }
+  | "X" :: "crash-applied" :: rest =>
+    let mode := (kvOf rest "mode").toNat!
+    let o := d.c.obs
+    feed { d with c := { d.c with pendingCrashMode := some mode, obs := { o with machineCrash := o.machineCrash || mode != 0 } } } .restart "restart"
+  | "X" :: _ => return d
+  | "D" :: tag :: path :: rest =>
+    -- queue dump lines; the last dump of the case is what the oracle judges; after a crash they resync the monitor
+    let cur := (unhex (kvOf rest "cur")).getD []
+    let c := if tag != d.c.dumpTag then { d.c with dumpTag := tag, finalDump := [] } else d.c
+    let c := { c with finalDump := (path, cur) :: c.finalDump }
+    let mut dd := { d with c := c }
+    match c.pendingCrashMode, c.st with
+    | some mode, some s =>
+      match pathMsg path with
+      | some (dir, m) =>
+        let ms := s.msg m
+        match chOf dir with
+        | some ch =>
+          let marks := (dumpRecs cur).map (·.1)
+          match ms.chan ch with
+          | some rs =>
+            if ms.todo.isSome then
+              if (dumpRecs cur) != rs.map (fun r => (r.done, r.addr)) then dd ← feed dd (.crashTodoFiles m) s!"crashTodoFiles {m}"
+            else if marks != rs.map (·.done) || (dumpRecs cur).map (·.2) != rs.map (·.addr) then
+              if mode == 0 then dd ← reject dd s!"after a process crash {path} differs from the model"
+              else dd ← feed dd (.crashMarks m ch marks) s!"crashMarks {m}"
+          | none => dd ← reject dd s!"after the crash {path} exists but not in the model"
+        | none =>
+          if dir == "bounce" then
+            if ms.bounce != some cur then dd ← feed dd (.crashBounce m cur) s!"crashBounce {m}"
+          else if dir == "info" then
+            if ms.todo.isSome && ms.info != some cur then dd ← feed dd (.crashTodoFiles m) s!"crashTodoFiles {m}"
+      | none => pure ()
+    | _, _ => pure ()
+    return dd
+  | "T" :: "P0" :: rest =>
+    let d := if d.c.pendingCrashMode.isSome then { d with c := { d.c with pendingCrashMode := none } } else d
+    match rest with
+    | _ :: "open_excl" :: path :: "->" :: r :: _ =>
+      if r == "-1" then return d else
+      match pathMsg path with
+      | some ("info", m) => feed { d with c := { d.c with fds0 := (r, .info m) :: d.c.fds0.filter (·.1 != r) } } (.creatInfo m) s!"creatInfo {m}"
+      | some (dir, m) => match chOf dir with
+        | some ch => feed { d with c := { d.c with fds0 := (r, .chanNew m ch) :: d.c.fds0.filter (·.1 != r) } } (.creatChan m ch) s!"creatChan {m} {dir}"
+        | none => return d
+      | none => return d
+    | _ :: "open_write" :: path :: "->" :: r :: _ =>
+      if r == "-1" then return d else
+      match pathMsg path with
+      | some (dir, m) => match chOf dir with
+        | some ch => return { d with c := { d.c with fds0 := (r, .chanMark m ch) :: d.c.fds0.filter (·.1 != r) } }
+        | none => return { d with c := { d.c with fds0 := d.c.fds0.filter (·.1 != r) } }
+      | none => return { d with c := { d.c with fds0 := d.c.fds0.filter (·.1 != r) } }
+    | _ :: "open_append" :: path :: "->" :: r :: _ =>
+      if r == "-1" then return d else
+      match pathMsg path with
+      | some ("bounce", m) => return { d with c := { d.c with fds0 := (r, .bounce m) :: d.c.fds0.filter (·.1 != r), bounceAcc := (r, []) :: d.c.bounceAcc.filter (·.1 != r) } }
+      | _ => return d
+    | _ :: "open_read" :: _ :: "->" :: r :: _ => return { d with c := { d.c with fds0 := d.c.fds0.filter (·.1 != r) } }
+    | _ :: "write" :: fd :: more =>
+      if more.contains "-1" then return d else
+      let data := (unhex (kvOf more "data")).getD []
+      let off := (kvOf more "off").toNat!
+      match fdKind d.c.fds0 fd with
+      | some (FdKind.info m) => feed d (.writeInfo m data) s!"writeInfo {m}"
+      | some (FdKind.chanNew m ch) =>
+        -- a short write may end inside a record; allwrite() continues with the rest
+        let acc := (((d.c.chanAcc.find? (·.1 == fd)).map (·.2)).getD []) ++ data
+        if acc.getLast? == some 0 then
+          feed { d with c := { d.c with chanAcc := d.c.chanAcc.filter (·.1 != fd) } } (.writeChan m ch acc) s!"writeChan {m}"
+        else return { d with c := { d.c with chanAcc := (fd, acc) :: d.c.chanAcc.filter (·.1 != fd) } }
+      | some (FdKind.chanMark m ch) =>
+        if data == [68] then
+          let cn := if ch == .loc then 0 else 1
+          let o := d.c.obs
+          let d := { d with c := { d.c with obs := { o with marks := (m, cn, off, genOf o m) :: o.marks } } }
+          feed d (.markD m ch off) s!"markD {m} chan={cn} off={off}"
+        else reject d s!"unexpected write to a channel file of {m}: {line.trimAscii.toString.take 100}"
+      | some (FdKind.bounce _) =>
+        return { d with c := { d.c with bounceAcc := d.c.bounceAcc.map (fun (f, b) => if f == fd then (f, b ++ data) else (f, b)) } }
+      | _ => return d
+    | "close" :: fd :: _ =>
+      match fdKind d.c.fds0 fd with
+      | some (FdKind.bounce m) =>
+        let bs := ((d.c.bounceAcc.find? (·.1 == fd)).map (·.2)).getD []
+        let d := { d with c := { d.c with fds0 := d.c.fds0.filter (·.1 != fd), bounceAcc := d.c.bounceAcc.filter (·.1 != fd) } }
+        if bs.isEmpty then return d else feed d (.appendBounce m bs) s!"appendBounce {m}"
+      | _ => return { d with c := { d.c with fds0 := d.c.fds0.filter (·.1 != fd) } }
+    | _ :: "fsync" :: fd :: more =>
+      if more.contains "-1" then return d else
+      match fdKind d.c.fds0 fd with
+      | some (FdKind.info m) => feed d (.fsyncInfo m) s!"fsyncInfo {m}"
+      | some (FdKind.chanNew m ch) => feed d (.fsyncChan m ch) s!"fsyncChan {m}"
+      | _ => return d
+    | _ :: "unlink" :: path :: "->" :: r :: _ =>
+      if r != "0" then return d else
+      match pathMsg path with
+      | some ("info", m) => feed d (.unlinkInfo m) s!"unlinkInfo {m}"
+      | some ("bounce", m) => feed d (.unlinkBounce m) s!"unlinkBounce {m}"
+      | some (dir, m) => match chOf dir with
+        | some ch => feed d (.unlinkChan m ch) s!"unlinkChan {m} {dir}"
+        | none => reject d s!"qmail-send unlinked {path}"
+      | none => reject d s!"qmail-send unlinked {path}"
+    | _ :: "stat" :: path :: _ =>
+      match pathMsg path with
+      | some ("bounce", m) => return { d with c := { d.c with lastBounceStat := m } }
+      | _ => return d
+    | _ :: "utimes" :: path :: t :: "->" :: r :: _ =>
+      if r != "0" then return d else
+      match pathMsg path with
+      | some (dir, m) => match chOf dir with
+        | some ch => feed d (.utimes m ch t.toNat!) s!"utimes {m}"
+        | none => return d
+      | none => return d
+    | _ :: "write_pipe" :: "5" :: more =>
+      if more.contains "-1" then return d else
+      let data := (unhex (kvOf more "data")).getD []
+      let acc := d.c.reqAcc ++ data
+      if acc.getLast? == some 0 then feed { d with c := { d.c with reqAcc := [] } } (.cleanReq acc) s!"cleanReq {String.fromUTF8! (ByteArray.mk acc.dropLast.toArray)}"
+      else return { d with c := { d.c with reqAcc := acc } }
+    | _ :: "read" :: "6" :: "->" :: r :: more =>
+      -- a failed or empty read is `cleandied()`: the request is abandoned
+      if r == "-1" || r == "0" then
+        (match d.c.st with
+         | some s => if s.clean.isSome then feed d (.cleanResp 0) "cleanResp(lost)" else return d
+         | none => return d)
+      else
+      let data := (unhex (kvOf more "data")).getD []
+      feed d (.cleanResp (data.headD 0)) "cleanResp"
+    | _ :: "read" :: fd :: "->" :: r :: more =>
+      if fd != "2" && fd != "4" then return d else
+      if r == "-1" || r == "0" then return d else
+      if !d.c.firstRead.contains fd then return { d with c := { d.c with firstRead := fd :: d.c.firstRead } } else
+      let data := (unhex (kvOf more "data")).getD []
+      let cn := if fd == "2" then 0 else 1
+      let d := { d with c := { d.c with obs := observeReports d.c.obs cn data } }
+      feed d (.rbytes (if fd == "2" then .loc else .rem) data) s!"rbytes fd={fd}"
+    | _ :: "select" :: more =>
+      match (kvOf more "clock").toNat? with
+      | some t => feed d (.tick t) "tick"
+      | none => return d
+    | _ => return d
+  | "T" :: "P1" :: rest =>
+    match rest with
+    | _ :: "unlink" :: path :: "->" :: r :: more =>
+      if path.startsWith "pid/" then return d else
+      let attempted := r == "0" || more.contains "e2"
+      if !attempted then return d else
+      match pathMsg path with
+      | some ("intd", m) => feed d (.cUnlinkIntd m) s!"cUnlinkIntd {m}"
+      | some ("todo", m) => if r == "0" then feed d (.cUnlinkTodo m) s!"cUnlinkTodo {m}" else return d
+      | some ("mess", m) => if r == "0" then feed d (.cUnlinkMess m) s!"cUnlinkMess {m}" else return d
+      | _ => reject d s!"qmail-clean unlinked {path}"
+    | _ => return d
+  | "END" :: _ => finishCase d
+  | _ => return d
+
+partial def loop2 (h : IO.FS.Stream) (d : D) : IO D := do
+  let line ← h.getLine
+  if line.isEmpty then return d
+  let d' ← handle d line
+  loop2 h d'
+
+def main : IO Unit := do
+  let stdin ← IO.getStdin
+  let d ← loop2 stdin {}
+  IO.println s!"STATS {d.st.json}"
